@@ -18,7 +18,14 @@ import (
 	"sigs.k8s.io/controller-runtime/pkg/client"
 
 	v1 "sigs.k8s.io/karpenter/pkg/apis/v1"
+	"sigs.k8s.io/karpenter/pkg/apis/v1alpha1"
 	"sigs.k8s.io/karpenter/pkg/cloudprovider"
+	"sigs.k8s.io/karpenter/pkg/cloudprovider/overlay"
+	"sigs.k8s.io/karpenter/pkg/controllers/nodeoverlay"
+	"sigs.k8s.io/karpenter/pkg/controllers/provisioning"
+	"sigs.k8s.io/karpenter/pkg/state/virtualpods"
+	"sigs.k8s.io/controller-runtime/pkg/client/interceptor"
+	"sigs.k8s.io/controller-runtime/pkg/reconcile"
 	"sigs.k8s.io/karpenter/pkg/controllers/disruption"
 	kevents "sigs.k8s.io/karpenter/pkg/events"
 	provsched "sigs.k8s.io/karpenter/pkg/controllers/provisioning/scheduling"
@@ -40,7 +47,16 @@ func setup(in *RunIn) (*world.World, context.Context, error) {
 	o.FeatureGates.SpotToSpotConsolidation = in.SpotToSpot
 	ctx := options.ToContext(w.Ctx, &o)
 	// per-NodePool price tables: the provider answers GetInstanceTypes(nodePool) with that NodePool's own objects
+	if len(in.Overlays) > 0 {
+		if err := installOverlays(in, w, &o); err != nil {
+			return nil, nil, err
+		}
+		ctx = options.ToContext(w.Ctx, &o)
+	}
 	for _, t := range in.Tables {
+		if len(in.Overlays) > 0 {
+			break // the tables are what the overlays are expected to yield
+		}
 		var its []*cloudprovider.InstanceType
 		for _, it := range t.ITs {
 			its = append(its, world.BuildIT(it))
@@ -118,9 +134,14 @@ func setup(in *RunIn) (*world.World, context.Context, error) {
 		if err := w.Client.Update(ctx, p); err != nil {
 			return nil, nil, err
 		}
-		if pe.Phase != "" {
+		if pe.Phase != "" || pe.NotReady {
 			// the fake client treats pod status as a subresource
-			p.Status.Phase = corev1.PodPhase(pe.Phase)
+			if pe.Phase != "" {
+				p.Status.Phase = corev1.PodPhase(pe.Phase)
+			}
+			if pe.NotReady {
+				p.Status.Conditions = append(p.Status.Conditions, corev1.PodCondition{Type: corev1.PodReady, Status: corev1.ConditionFalse})
+			}
 			if err := w.Client.Status().Update(ctx, p); err != nil {
 				return nil, nil, err
 			}
@@ -136,9 +157,22 @@ func setup(in *RunIn) (*world.World, context.Context, error) {
 		if pe.Blocking {
 			mu = intstr.FromInt32(0)
 		}
+		spec := policyv1.PodDisruptionBudgetSpec{MaxUnavailable: &mu, Selector: &metav1.LabelSelector{MatchLabels: map[string]string{"app": pe.App}}}
+		if pe.Blocking && pe.Form == "0%" {
+			v := intstr.FromString("0%")
+			spec.MaxUnavailable = &v
+		}
+		if pe.Blocking && pe.Form == "100%" {
+			v := intstr.FromString("100%")
+			spec.MaxUnavailable, spec.MinAvailable = nil, &v
+		}
+		if pe.Policy != "" {
+			pol := policyv1.UnhealthyPodEvictionPolicyType(pe.Policy)
+			spec.UnhealthyPodEvictionPolicy = &pol
+		}
 		pdb := &policyv1.PodDisruptionBudget{
 			ObjectMeta: metav1.ObjectMeta{Name: fmt.Sprintf("pdb-%d", i), Namespace: "default", UID: types.UID(fmt.Sprintf("pdb-%d", i))},
-			Spec:       policyv1.PodDisruptionBudgetSpec{MaxUnavailable: &mu, Selector: &metav1.LabelSelector{MatchLabels: map[string]string{"app": pe.App}}},
+			Spec:       spec,
 			Status:     policyv1.PodDisruptionBudgetStatus{DisruptionsAllowed: pe.Allowed},
 		}
 		if err := w.Client.Create(ctx, pdb); err != nil {
@@ -151,6 +185,80 @@ func setup(in *RunIn) (*world.World, context.Context, error) {
 	}
 	w.Cluster.SetSynced(true)
 	return w, ctx, nil
+}
+
+type cpKey struct{}
+
+// cpOf: the cloud provider the disruption machinery talks to: the world's fake provider, or — when the run has
+// NodeOverlays — that provider behind the NodeOverlay decorator.
+func cpOf(w *world.World) cloudprovider.CloudProvider {
+	if cp, ok := w.Ctx.Value(cpKey{}).(cloudprovider.CloudProvider); ok {
+		return cp
+	}
+	return w.CP
+}
+
+// installOverlays creates the NodeOverlay objects, lets the REAL nodeoverlay controller evaluate them once against the raw
+// provider (as its 6-hourly / event-driven Reconcile does), wraps the provider with overlay.Decorate and gives the world a
+// provisioner on the decorated provider — the wiring of the operator.
+func installOverlays(in *RunIn, w *world.World, o *options.Options) error {
+	o.FeatureGates.NodeOverlay = true
+	ctx := options.ToContext(w.Ctx, o)
+	for i, ov := range in.Overlays {
+		spec := v1alpha1.NodeOverlaySpec{Requirements: []v1alpha1.NodeSelectorRequirement{}}
+		if ov.Pool != "" {
+			spec.Requirements = append(spec.Requirements, v1alpha1.NodeSelectorRequirement{Key: v1.NodePoolLabelKey, Operator: corev1.NodeSelectorOpIn, Values: []string{ov.Pool}})
+		}
+		if ov.CT != "" {
+			spec.Requirements = append(spec.Requirements, v1alpha1.NodeSelectorRequirement{Key: v1.CapacityTypeLabelKey, Operator: corev1.NodeSelectorOpIn, Values: []string{ov.CT}})
+		}
+		if len(ov.ITs) > 0 {
+			spec.Requirements = append(spec.Requirements, v1alpha1.NodeSelectorRequirement{Key: corev1.LabelInstanceTypeStable, Operator: corev1.NodeSelectorOpIn, Values: append([]string{}, ov.ITs...)})
+		}
+		if ov.Adjust != "" {
+			a := ov.Adjust
+			spec.PriceAdjustment = &a
+		}
+		if ov.Price != "" {
+			a := ov.Price
+			spec.Price = &a
+		}
+		if ov.Weight != 0 {
+			wt := ov.Weight
+			spec.Weight = &wt
+		}
+		obj := &v1alpha1.NodeOverlay{ObjectMeta: metav1.ObjectMeta{Name: ov.Name, UID: types.UID("ov-" + ov.Name), CreationTimestamp: metav1.NewTime(world.T0.Add(-time.Hour).Add(time.Duration(i) * time.Second))}, Spec: spec}
+		if err := w.Client.Create(ctx, obj); err != nil {
+			return fmt.Errorf("nodeoverlay %s: %w", ov.Name, err)
+		}
+	}
+	// the world's client does not register NodeOverlay's status subresource: the controller's status writes go to the object
+	ww, ok := w.Client.(client.WithWatch)
+	if !ok {
+		return fmt.Errorf("world client is no WithWatch client")
+	}
+	kube := interceptor.NewClient(ww, interceptor.Funcs{
+		SubResourceUpdate: func(ctx context.Context, c client.Client, sub string, obj client.Object, opts ...client.SubResourceUpdateOption) error {
+			if _, ok := obj.(*v1alpha1.NodeOverlay); ok {
+				return c.Update(ctx, obj)
+			}
+			return c.SubResource(sub).Update(ctx, obj, opts...)
+		},
+		SubResourcePatch: func(ctx context.Context, c client.Client, sub string, obj client.Object, patch client.Patch, opts ...client.SubResourcePatchOption) error {
+			if _, ok := obj.(*v1alpha1.NodeOverlay); ok {
+				return c.Update(ctx, obj)
+			}
+			return c.SubResource(sub).Patch(ctx, obj, patch, opts...)
+		},
+	})
+	store := nodeoverlay.NewInstanceTypeStore()
+	if _, err := nodeoverlay.NewController(w.Clock, kube, w.CP, store, w.Cluster).Reconcile(ctx, reconcile.Request{}); err != nil {
+		return fmt.Errorf("nodeoverlay reconcile: %w", err)
+	}
+	cp := overlay.Decorate(w.CP, w.Client, store)
+	w.Prov = provisioning.NewProvisioner(w.Client, test.NewEventRecorder(), cp, w.Cluster, w.Clock, nil, virtualpods.NewVirtualPodCache(w.Client))
+	w.Ctx = context.WithValue(w.Ctx, cpKey{}, cp)
+	return nil
 }
 
 func claimO(nc *provsched.NodeClaim) ClaimO {
@@ -182,7 +290,7 @@ func newMethod(w *world.World, name string) (methodT, *disruption.Queue, error) 
 func newMethodRec(w *world.World, name string) (methodT, *disruption.Queue, *test.EventRecorder, error) {
 	rec := test.NewEventRecorder()
 	queue := disruption.NewQueue(w.Client, rec, w.Cluster, w.Clock, w.Prov)
-	c := disruption.MakeConsolidation(w.Clock, w.Cluster, w.Client, w.Prov, w.CP, rec, queue)
+	c := disruption.MakeConsolidation(w.Clock, w.Cluster, w.Client, w.Prov, cpOf(w), rec, queue)
 	switch name {
 	case "single":
 		return disruption.NewSingleNodeConsolidation(c), queue, rec, nil
@@ -238,7 +346,7 @@ func precompute(in *RunIn, names []string) (*CmdOut, error) {
 	}
 	rec := test.NewEventRecorder()
 	queue := disruption.NewQueue(w.Client, rec, w.Cluster, w.Clock, w.Prov)
-	c := disruption.MakeConsolidation(w.Clock, w.Cluster, w.Client, w.Prov, w.CP, rec, queue)
+	c := disruption.MakeConsolidation(w.Clock, w.Cluster, w.Client, w.Prov, cpOf(w), rec, queue)
 	var m methodT
 	switch in.Method {
 	case "single":
@@ -281,7 +389,7 @@ func precompute(in *RunIn, names []string) (*CmdOut, error) {
 }
 
 func candidates(ctx context.Context, w *world.World, m methodT, q *disruption.Queue) ([]*disruption.Candidate, error) {
-	cs, err := disruption.GetCandidates(ctx, w.Cluster, w.Client, test.NewEventRecorder(), w.Clock, w.CP, m.ShouldDisrupt, disruption.GracefulDisruptionClass, q)
+	cs, err := disruption.GetCandidates(ctx, w.Cluster, w.Client, test.NewEventRecorder(), w.Clock, cpOf(w), m.ShouldDisrupt, disruption.GracefulDisruptionClass, q)
 	if err != nil {
 		return nil, err
 	}
@@ -334,6 +442,9 @@ func churnPod(w *world.World, ch *Churn, node string, exts map[string]PodExt, se
 		}
 		if pe.Phase != "" {
 			p.Status.Phase = corev1.PodPhase(pe.Phase)
+		}
+		if pe.NotReady {
+			p.Status.Conditions = append(p.Status.Conditions, corev1.PodCondition{Type: corev1.PodReady, Status: corev1.ConditionFalse})
 		}
 	}
 	return p
@@ -428,7 +539,7 @@ func runOnce(in *RunIn, deliverChurn bool) (out *RunOut, cmds []disruption.Comma
 	// Balanced pools: hand the method the per-pool totals, as the controller does before ComputeCommands
 	for _, pe := range in.Pools {
 		if pe.Policy == string(v1.ConsolidationPolicyBalanced) {
-			_, totals, err := disruption.GetCandidatesWithTotals(ctx, w.Cluster, w.Client, test.NewEventRecorder(), w.Clock, w.CP, m.ShouldDisrupt, disruption.GracefulDisruptionClass, q, nil)
+			_, totals, err := disruption.GetCandidatesWithTotals(ctx, w.Cluster, w.Client, test.NewEventRecorder(), w.Clock, cpOf(w), m.ShouldDisrupt, disruption.GracefulDisruptionClass, q, nil)
 			if err != nil {
 				return nil, nil, nil, false, err
 			}
